@@ -227,6 +227,8 @@ def gen_configs(seed: int, n: int, nx_max: int, families: str = "all") -> list[d
             c["time_box"] = "series"
         if i % 7 == 3 and c["grid"] in ("uniform", "quadratic", "geometric", "random", "nearuniform"):
             c["shift"] = (0.015625, 0.5, 64.0)[(i // 7) % 3]
+        if i % 11 == 6 and not c.get("time_box") and not c.get("shift"):
+            c["grid"] = "intdays16"
     return cfgs
 
 
